@@ -30,7 +30,7 @@ func checkC13(r *Report, known []Finding) {
 		var ops, obs []string
 		rng := root.Fork(1)
 		record := func() { obs = append(obs, fmt.Sprintf("%d:%d:%d", st.Generation, len(st.Visited), cap(st.Visited))) }
-		calls := 1600
+		calls := 70000
 		if r.Tier == "thorough" {
 			calls = 4000
 		}
@@ -46,16 +46,8 @@ func checkC13(r *Report, known []Finding) {
 				if ln > 0 {
 					at = rng.Intn(ln + 1)
 				}
-				bt.SearchAtWithState(h, at, st) // no match: one bump per start position
+				bt.SearchAtWithState(h, at, st) // leftmost-first mode: one reset, the table is shared by all start positions
 				ops = append(ops, fmt.Sprintf("r%d", ns*(ln-at+1)))
-				for k := at; k <= ln; k++ {
-					ops = append(ops, "b")
-				}
-				// the model answers after every op; keep only the last one of this call
-				for k := at; k < ln; k++ {
-					obs = append(obs, "-")
-				}
-				obs = append(obs, "-")
 				record()
 			}
 			r.Case(fmt.Sprintf("vis\x00%d", i), true)
